@@ -143,6 +143,38 @@ def run(tier):
                 recs.append({"id": len(recs) + 1, "g0": drive.gjson(before), "g1": drive.gjson(pb), "sigma": [], "mirror": False,
                              "mode": 2 if gen_bo else 1, "keep": keep, "src": f"organic:{name}", "cls": "organic",
                              "bond_orders": gen_bo})
+                if gen_bo and keep and n_mols % 3 == 0:
+                    # the same molecule next to a spectator fragment with an atom outside the valence tables (PF6) or with
+                    # unsaturated atoms that have no partner (the phosphines of PtCl2(PH3)2): the isolated double bonds of the
+                    # organic part must still be reproduced
+                    for sp_name, sp_atoms, sp_bonds in (
+                            ("PF6", [(950, "P")] + [(951 + k, "F") for k in range(6)], [(950, 951 + k) for k in range(6)]),
+                            ("PtCl2(PH3)2", [(940, "Pt"), (941, "Cl"), (942, "Cl"), (960, "P"), (970, "P")]
+                             + [(961 + k, "H") for k in range(3)] + [(971 + k, "H") for k in range(3)],
+                             [(940, 941), (940, 942), (940, 960), (940, 970)]
+                             + [(960, 961 + k) for k in range(3)] + [(970, 971 + k) for k in range(3)])):
+                        import stereomolgraph as _smgmod
+                        SMG = _smgmod.StereoMolGraph
+                        sp = SMG()
+                        for a_, e_ in sp_atoms:
+                            sp.add_atom(a_, e_)
+                        for a_, b_ in sp_bonds:
+                            sp.add_bond(a_, b_)
+                        g2 = SMG.compose([g, sp])
+                        b2, _ = project(g2, ident)
+                        try:
+                            mol2, _ = g2._to_rdmol(generate_bond_orders=True)
+                            mol2.UpdatePropertyCache(strict=False)
+                            back2 = RDMol2StereoMolGraph(use_atom_map_number=True, stereo_complete=True, resonance=False)(mol2)
+                        except Exception as e:
+                            rep.violation(f"C13|organic+spectator|{sp_name}|raises:{type(e).__name__}",
+                                          f"{name} + {sp_name}: export / re-import raised {type(e).__name__}", {"smiles": smi})
+                            continue
+                        p2, _ = project(back2, ident)
+                        recs.append({"id": len(recs) + 1, "g0": drive.gjson(b2), "g1": drive.gjson(p2), "sigma": [], "mirror": False,
+                                     "mode": 2, "keep": keep, "cls": "organic", "bond_orders": True,
+                                     "src": f"organic+spectator:{sp_name}:" + ",".join(sorted({"".join(sorted(
+                                         str(g.get_atom_type(x)) for x in kb)) for kb in keep}))})
     ok, bad = geom.validate_meta(recs) if recs else (set(), {})
     byid = {r["id"]: r for r in recs}
     for i, v in bad.items():
